@@ -197,6 +197,18 @@ func vpH_C03_special() {
 		}
 	}
 	pl := &Place{ID: vpMkIRI('i'), Type: PlaceType, Latitude: -33.5, Longitude: -70.25, Altitude: -12, Radius: -vpInt(1, 99)}
+	// whole numbers beyond the 53 bits a float64 carries exactly come back as they were (seed C03-18:
+	// the radius sent through the float64 helper)
+	switch vpChoice(5) {
+	case 1:
+		pl.Radius = 1<<53 + 1
+	case 2:
+		pl.Radius = -(1<<53 + 1)
+	case 3:
+		pl.Radius = 1<<63 - 1
+	case 4:
+		pl.Radius = -1 << 63
+	}
 	b, err = GobEncode(pl)
 	vpAssert("special/place-encode", err == nil && len(b) > 0)
 	y, err = GobDecode(b)
